@@ -803,11 +803,11 @@ fn duplicate_case(cx: &mut CaseCtx, input: Input) -> CaseResult {
 // ------------------------------------------------------------------------------------------
 
 #[derive(Debug, Default)]
-struct RefReply {
-    files: Vec<(String, String)>,
+pub struct RefReply {
+    pub files: Vec<(String, String)>,
     /// (level, message, source)
-    diagnostics: Vec<(u8, String, Option<String>)>,
-    consumed: usize,
+    pub diagnostics: Vec<(u8, String, Option<String>)>,
+    pub consumed: usize,
 }
 
 /// Reference decoding of a generator reply: `Sequence<GeneratedFile>` then `Sequence<Diagnostic>`;
@@ -815,7 +815,7 @@ struct RefReply {
 /// (one bool: has source), level (uint8), message, optional source, tagged fields.  Any level byte
 /// is taken here; the caller treats levels above 2 as "either outcome" (the enum is `unchecked`
 /// in CodeGenerator.slice, the decoder in the binary is strict).
-fn ref_reply(input: &[u8]) -> RefResult<RefReply> {
+pub fn ref_reply(input: &[u8]) -> RefResult<RefReply> {
     let mut b: &[u8] = input;
     let mut r = RefReply::default();
     let nf = wire::rd_size(&mut b)?;
@@ -838,7 +838,7 @@ fn ref_reply(input: &[u8]) -> RefResult<RefReply> {
     Ok(r)
 }
 
-fn enc_file(path: &str, contents: &str, tagged: &[u8]) -> Vec<u8> {
+pub fn enc_file(path: &str, contents: &str, tagged: &[u8]) -> Vec<u8> {
     let mut b = wire::enc_string(path);
     b.extend_from_slice(&wire::enc_string(contents));
     b.extend_from_slice(tagged);
@@ -846,7 +846,7 @@ fn enc_file(path: &str, contents: &str, tagged: &[u8]) -> Vec<u8> {
     b
 }
 
-fn enc_diag(level: u8, message: &str, source: Option<&str>, tagged: &[u8]) -> Vec<u8> {
+pub fn enc_diag(level: u8, message: &str, source: Option<&str>, tagged: &[u8]) -> Vec<u8> {
     let mut b = vec![source.is_some() as u8, level];
     b.extend_from_slice(&wire::enc_string(message));
     if let Some(s) = source {
@@ -857,7 +857,7 @@ fn enc_diag(level: u8, message: &str, source: Option<&str>, tagged: &[u8]) -> Ve
     b
 }
 
-fn reply_of(files: &[Vec<u8>], diags: &[Vec<u8>]) -> Vec<u8> {
+pub fn reply_of(files: &[Vec<u8>], diags: &[Vec<u8>]) -> Vec<u8> {
     let mut b = wire::enc_varuint(files.len() as u64).unwrap();
     for f in files {
         b.extend_from_slice(f);
@@ -869,7 +869,7 @@ fn reply_of(files: &[Vec<u8>], diags: &[Vec<u8>]) -> Vec<u8> {
     b
 }
 
-fn reply_shapes() -> Vec<Vec<u8>> {
+pub fn reply_shapes() -> Vec<Vec<u8>> {
     let unknown_tag: &[u8] = &[5 << 2, 3 << 2, 9, 8, 7]; // tag 5, 3 bytes
     vec![
         vec![0, 0],
@@ -886,7 +886,7 @@ fn reply_shapes() -> Vec<Vec<u8>> {
 }
 
 /// The fixed catalogue of replies (a pure function of the tier).
-fn reply_catalogue(tier: Tier) -> Vec<(String, Vec<u8>)> {
+pub fn reply_catalogue(tier: Tier) -> Vec<(String, Vec<u8>)> {
     let mut c: Vec<(String, Vec<u8>)> = Vec::new();
     c.push(("empty".into(), Vec::new()));
     for b in 0..=255u8 {
@@ -972,7 +972,7 @@ fn reply_catalogue(tier: Tier) -> Vec<(String, Vec<u8>)> {
     c
 }
 
-fn safe_path(p: &str) -> bool {
+pub fn safe_path(p: &str) -> bool {
     !p.is_empty()
         && p.len() <= 64
         && p.chars().all(|c| c.is_ascii_alphanumeric() || c == '.' || c == '_' || c == '-')
